@@ -678,6 +678,10 @@ func c05R10(h H) {
 			}
 			p, ok := res.(aptr)
 			if !ok {
+				if _, unknown := res.(aunk); unknown {
+					bad = "policy " + strings.TrimPrefix(k, "s:") + ": what the constructor returns cannot be determined (" + describeAval(res) + ")"
+					break
+				}
 				// a policy held by value carries no shared state
 				continue
 			}
